@@ -1,9 +1,88 @@
 package rules
 
 import (
+	"strings"
+
 	"dcverif/internal/fsmx"
+	"dcverif/internal/load"
+	"dcverif/internal/ssax"
+
+	"golang.org/x/tools/go/ssa"
 )
 
+// c05Purity — C05/R6: a rejected event changes nothing that lasts. The node never persists the outcome of an FSM step that
+// returned an error: every dump handed to SaveFSM is result #1 of FSMInstance.Do (or FSMInstance.Dump) and SaveFSM is not
+// reachable from that call except over its nil-error edge. Together with C08/R2 (the instance is rebuilt from the stored
+// dump for every message) a callback that touched the in-memory payload before failing leaves no trace.
+// Callback-level purity (no store before any error return) is deliberately NOT demanded: it is stronger than the property
+// (actionInitSignatureProposal assigns the payload before a defensive length check) and would be a false alarm.
 func c05Purity(c *Ctx, ms map[string]*fsmx.Machine) {
-	_ = ms
+	r := c.R
+	r.Rule("C05/R6", "a failed FSM step is never persisted: every saved dump is the result of a step that returned nil error", 4)
+	n := 0
+	for _, name := range []string{"processMessage", "executeOperation", "reinitDKG"} {
+		fn := c.Fn("C05/R6", pkgNode, "BaseNodeService", name)
+		if fn == nil {
+			continue
+		}
+		saves := ssax.Calls(fn, false, func(ci ssa.CallInstruction) bool {
+			o := ssax.CalleeObj(ci)
+			return o != nil && o.Name() == "SaveFSM"
+		})
+		producers := ssax.Calls(fn, false, func(ci ssa.CallInstruction) bool {
+			id := ssax.FuncID(ssax.CalleeObj(ci))
+			return id == load.Module+"/fsm/state_machines.(FSMInstance).Do" || id == load.Module+"/fsm/state_machines.(FSMInstance).Dump"
+		})
+		for i, sv := range saves {
+			n++
+			key := sprintf("node.%s:SaveFSM#%d", name, i+1)
+			a := sv.Common().Args
+			dump := a[len(a)-1]
+			// leaves of the dump value
+			var leaves []ssa.Value
+			seen := map[ssa.Value]bool{}
+			var walk func(v ssa.Value)
+			walk = func(v ssa.Value) {
+				v = ssax.Resolve(v)
+				if seen[v] {
+					return
+				}
+				seen[v] = true
+				if p, ok := v.(*ssa.Phi); ok {
+					for _, e := range p.Edges {
+						walk(e)
+					}
+					return
+				}
+				leaves = append(leaves, v)
+			}
+			walk(dump)
+			ok, detail := len(leaves) > 0, ""
+			for _, lf := range leaves {
+				var prod ssa.CallInstruction
+				for _, p := range producers {
+					idx := 1
+					if strings.HasSuffix(ssax.FuncID(ssax.CalleeObj(p)), ").Dump") {
+						idx = 0
+					}
+					if ssax.ResultOf(lf, p, idx) {
+						prod = p
+					}
+				}
+				if prod == nil {
+					ok, detail = false, "the saved dump can be "+npath(lf)+", which is not the result of FSMInstance.Do / Dump"
+					break
+				}
+				ne := ssax.NilErrEdgesOfCall(fn, prod)
+				if len(ne) == 0 || ssax.ReachableFrom(fn, prod.(ssa.Instruction), sv.(ssa.Instruction), ne, nil) {
+					ok, detail = false, "SaveFSM is reachable from "+callName(prod)+" at "+c.PosOf(prod.(ssa.Instruction))+" without passing its `err == nil` edge: the outcome of a rejected event would be stored"
+					break
+				}
+			}
+			r.Check(ok, "C05/R6", key, "the saved dump is the result of a step that returned nil error", c.PosOf(sv.(ssa.Instruction)), detail)
+		}
+	}
+	if n < 4 {
+		r.Unknown("C05/R6", "floor", "SaveFSM call sites of the node found", "", sprintf("%d found, 5 confirmed by hand", n))
+	}
 }
